@@ -8,7 +8,7 @@ import random
 from typing import Any, Dict, List, Optional, Set, Tuple
 
 LINQ = {"Select", "SelectMany", "Where", "First", "Count", "Sum", "Min", "Max", "Aggregate"}
-HOSTILE = ["e", "j", "Jets", "Muons", "pt", "eta", "sin", "abs", "result", "i_obj1", "i_obj2", "aggResult2", "arg_3", "arg_0", "xAOD", "Trig",
+HOSTILE = ["e", "j", "acc", "v", "arg", "arg_1", "Jets", "Muons", "pt", "eta", "sin", "abs", "result", "i_obj1", "i_obj2", "aggResult2", "arg_3", "arg_0", "xAOD", "Trig",
            "is_first3", "bool_op1", "if_else_result4", "collection_name", "obj_j", "cms_object", "x", "_col10", "lambda_arg", "token0", "jets0"]
 RESERVED = {"ds", "EventDataset", "MetaData", "ResultTTree", "True", "False", "None"}
 
